@@ -7,6 +7,7 @@
  R7.3 a column keeps one role: assigning a role erases the identifier from every role list first; deleting a column erases
       it from every role list
  R7.4 every designator container parameter of a public method is used through its elements, not only its size
+ R7.7 the next free rank of a role is computed after the role was cleaned
  R7.6 a role rank received as a parameter is compared with the length of the role list before it indexes it
  R7.5 the file-static scratch buffers of the Db sources are refilled before every read (no value carried over from the
       previous call / another Db); file-static hidden arguments are assigned before the calls that read them
@@ -310,6 +311,32 @@ def r7_6(prog, chk):
     chk.floor("R7.6", n, 3)
 
 
+def r7_7(prog, chk):
+    """R7.7 - the next free rank of a role is asked AFTER the role has been cleaned: a function that both empties a role
+    (clearLocators) and appends at `_getNextLocator()` computes the rank on the state it will append to; computed before the
+    cleaning, the new columns are numbered after holders that no longer exist (gaps, and the rank-1 slots are taken by stale entries)."""
+    from e1_paths import CFG
+    n = 0
+    for f in sorted(prog.funcs, key=lambda x: (x.file, x.line)):
+        if f.cls != "Db" or f.cfg is None:
+            continue
+        nexts = [c for c in f.calls() if (c.get("callee") or "").endswith("Db::_getNextLocator")]
+        clears = [c for c in f.calls() if (c.get("callee") or "").endswith("Db::clearLocators")]
+        if not nexts or not clears:
+            continue
+        g = CFG(f)
+        for nx in nexts:
+            n += 1
+            chk.analysed(f)
+            cids = {c["i"] for c in clears}
+            w = g.search(g.after(nx), is_target=lambda y: y["i"] in cids) if g.pos_of(nx) else None
+            chk.ob("R7.7", "%s: the next free rank of the role is computed after the role was cleaned" % f.sig(), f.loc(nx), w is None,
+                   detail=None if w is None else "clearLocators() runs after _getNextLocator(): the rank was computed with the holders that are then removed, so the "
+                   "roles are not numbered consecutively from one", key="R7.7|%s/%d" % (f.name, len(f.params)),
+                   path=None if w is None else g.describe(w))
+    chk.floor("R7.7", n, 3)
+
+
 def main(tier):
     chk = Check("C07", tier,
                 "Static structural clauses of Db consistency: the internal maps are private; every method that changes the shape of "
@@ -332,6 +359,7 @@ def main(tier):
     r7_3(prog, chk)
     r7_4(prog, chk)
     r7_6(prog, chk)
+    r7_7(prog, chk)
     # R7.5 no state carried from one call to the next through file-statics of the Db sources
     import c10
     c10.scratch_static_rule(prog, chk, ["src/Db/Db.cpp"], "R7.5", 1)
